@@ -34,11 +34,10 @@ class AbstractReader(object):
         if self.lowcaseMatching:
             filenames.append(mibname.lower())
 
-        if self.fuzzyMatching:
-            part = filenames[-1].find('-mib')
-            if part != -1:
+        if self.fuzzyMatching and filenames:
+            if mibname.lower().endswith('-mib'):
                 filenames.extend(
-                    [x[:part] for x in filenames]
+                    [x[:-4] for x in filenames]
                 )
             else:
                 suffixed = mibname + '-mib'
